@@ -1,11 +1,13 @@
 (* C10 — success is reported iff every problem is proven, under any prover schedule / fault.
-   Statements only; model in Model/Prover.v, proofs in Proofs/ProverOk.v.
+   Statements only; models in Model/Prover.v and Model/VerdictRun.v (run level: option values, the
+   last lines of stdout, the exit status), proofs in Proofs/ProverOk.v and Proofs/VerdictRunOk.v.
    What these statements cannot talk about (OS processes, pipes, the thread pool, the channel, a
    panic that unwinds a worker) is listed in docs/C10.md and tied only by the CLI runs of
-   props/C10.py with a stand-in prover. *)
-From Coq Require Import List Ascii String Arith Permutation.
+   props/C10.py with a stand-in prover (worker deaths are injected through the hook
+   anthem::verif::prover_fault, cargo feature `verif`). *)
+From Coq Require Import List Ascii String Arith NArith Permutation.
 Import ListNotations.
-From Anthem Require Import Model.Prover Proofs.ProverOk.
+From Anthem Require Import Base.Fresh Model.Prover Proofs.ProverOk Model.VerdictRun Proofs.VerdictRunOk.
 Open Scope string_scope.
 Open Scope nat_scope.
 
@@ -97,6 +99,85 @@ Theorem C10_sequential : forall os : list os_outcome,
 Proof. exact sequential_iff. Qed.
 Print Assumptions C10_sequential.
 
+(* ---- run level (Model/VerdictRun.v): the last lines of stdout and the exit status ----
+   [delivered ws] = number of results that are ever sent = number of [Some] fates;
+   [all_theorems ws] = every fate is [Some r] with r a Theorem result. *)
+
+(* instances <> 1 (thread pool).  A worker that dies: for EVERY schedule the run ends with the
+   count line carrying the right numbers, then the Failure line, and exit status 0. *)
+Theorem C10_dead_worker_end : forall ws sched,
+  Permutation sched (msgs ws) -> In None ws ->
+  pool_end sched (List.length ws) = Finished (delivered ws) (List.length ws) false /\
+  delivered ws < List.length ws /\
+  count_line (pool_end sched (List.length ws)) =
+    Some ("> Proving ended with " ++ nat_str (N.of_nat (delivered ws)) ++ " results for " ++
+          nat_str (N.of_nat (List.length ws)) ++ " problems") /\
+  verdict_line (pool_end sched (List.length ws)) = Some failure_text /\
+  exit_status (pool_end sched (List.length ws)) = 0.
+Proof. exact pool_end_dead_worker. Qed.
+Print Assumptions C10_dead_worker_end.
+
+(* the count line is printed iff some worker died *)
+Theorem C10_count_line : forall ws sched,
+  Permutation sched (msgs ws) ->
+  (count_line (pool_end sched (List.length ws)) = None <-> ~ In None ws).
+Proof. exact count_line_pool_iff. Qed.
+Print Assumptions C10_count_line.
+
+(* the pool always prints a verdict line: Success iff every problem delivered a Theorem *)
+Theorem C10_verdict_line_pool : forall ws sched,
+  Permutation sched (msgs ws) ->
+  (verdict_line (pool_end sched (List.length ws)) = Some success_text <-> all_theorems ws) /\
+  (verdict_line (pool_end sched (List.length ws)) = Some failure_text <-> ~ all_theorems ws).
+Proof. exact verdict_line_pool. Qed.
+Print Assumptions C10_verdict_line_pool.
+
+(* instances = 1: a `prove` that panics takes the process down (exit status 101, no verdict line,
+   NOT a Failure line); the results printed are those before the first such problem *)
+Theorem C10_sequential_panic : forall ws k,
+  sequential_end ws = Panicked k <->
+  nth_error ws k = Some None /\ forall j, j < k -> exists r, nth_error ws j = Some (Some r).
+Proof. exact sequential_end_panicked. Qed.
+Print Assumptions C10_sequential_panic.
+
+Theorem C10_verdict_line_sequential : forall ws,
+  (verdict_line (sequential_end ws) = Some success_text <-> all_theorems ws) /\
+  (verdict_line (sequential_end ws) = None <-> In None ws) /\
+  (exit_status (sequential_end ws) = 101 <-> In None ws).
+Proof. exact verdict_line_sequential. Qed.
+Print Assumptions C10_verdict_line_sequential.
+
+(* The exit status does not carry the verdict: it is 0 exactly when a verdict line - Success OR
+   Failure - was printed (`Ok(())` at the end of Command::Verify).  The property text speaks of
+   what is reported; docs/C10.md records this as an observation. *)
+Theorem C10_exit_status : forall e, exit_status e = 0 <-> verdict_line e <> None.
+Proof. exact exit_status_zero_iff. Qed.
+Print Assumptions C10_exit_status.
+
+Theorem C10_exit_status_ignores_verdict : forall r s b b',
+  exit_status (Finished r s b) = exit_status (Finished r s b').
+Proof. exact exit_status_ignores_verdict. Qed.
+Print Assumptions C10_exit_status_ignores_verdict.
+
+(* option values: the number of instances is never 0 (ThreadPool::new(0) would panic), for every
+   value of the three options; [ncpu] = num_cpus::get() *)
+Theorem C10_instances_positive : forall o ncpu,
+  (1 <= ncpu)%N -> exists k, instances o ncpu = Some k /\ (1 <= k)%N.
+Proof. exact instances_positive. Qed.
+Print Assumptions C10_instances_positive.
+
+Theorem C10_instances_explicit : forall o ncpu,
+  prover_instances o <> 0%N -> instances o ncpu = Some (prover_instances o).
+Proof. exact instances_explicit. Qed.
+Print Assumptions C10_instances_explicit.
+
+Theorem C10_instances_auto : forall o ncpu,
+  prover_instances o = 0%N -> (1 <= ncpu)%N ->
+  instances o ncpu = Some (N.max (ncpu / cores o ncpu) 1) /\
+  ((ncpu < 2 * cores o ncpu)%N -> is_sequential o ncpu = Some true).
+Proof. exact instances_auto. Qed.
+Print Assumptions C10_instances_auto.
+
 (* ---- non-vacuity ---- *)
 (* (the literal is split so that the word after "Theorem" is not read as a theorem name by the
    audit of bin/vlib.py) *)
@@ -130,4 +211,32 @@ Example C10_utf8_examples :
   utf8_valid (String (ascii_of_nat 237) (String (ascii_of_nat 160) (String (ascii_of_nat 128) ""))) = false /\ (* surrogate *)
   prove (Exited (String (ascii_of_nat 255) (line "Theorem" "p")) "" 0) = Failed ConvertOutput /\
   prove (Exited (line "Theorem" "p") "" 3) = Reported (SOk StTheorem).
+Proof. repeat split; vm_compute; reflexivity. Qed.
+
+Example C10_run_end_examples :
+  let T := Reported (SOk StTheorem) in
+  pool_end [(2, T); (0, T)] 3 = Finished 2 3 false /\
+  count_line (pool_end [(2, T); (0, T)] 3) = Some "> Proving ended with 2 results for 3 problems" /\
+  verdict_line (pool_end [(2, T); (0, T)] 3) = Some failure_text /\
+  exit_status (pool_end [(2, T); (0, T)] 3) = 0 /\
+  count_line (pool_end [(1, T); (0, T)] 2) = None /\
+  verdict_line (pool_end [(1, T); (0, T)] 2) = Some success_text /\
+  sequential_end [Some T; None; Some T] = Panicked 1 /\
+  exit_status (sequential_end [Some T; None; Some T]) = 101 /\
+  sequential_end [Some T; Some (Failed Spawn)] = Finished 2 2 false /\
+  exit_status (sequential_end [Some T; Some (Failed Spawn)]) = 0 /\
+  sequential_end [] = Finished 0 0 true.
+Proof. repeat split; vm_compute; reflexivity. Qed.
+
+Example C10_option_examples :
+  let o t i c := mkopts t i c in
+  (  instances (o 60 1 1) 16 = Some 1 /\ is_sequential (o 60 1 1) 16 = Some true /\
+  instances (o 60 0 1) 16 = Some 16 /\ instances (o 60 0 0) 16 = Some 1 /\
+  instances (o 60 0 5) 16 = Some 3 /\ instances (o 60 0 100) 16 = Some 1 /\
+  instances (o 60 0 0) 0 = None /\
+  is_sequential (o 60 100000 1) 16 = Some false /\
+  prover_argv (o 0 7 0) 16 = ["--mode"; "casc"; "--time_limit"; "0"; "--cores"; "16"] /\
+  prover_argv (o 18446744073709551615 1 18446744073709551615) 16 =
+    ["--mode"; "casc"; "--time_limit"; "18446744073709551615"; "--cores"; "18446744073709551615"] /\
+  options_ok (o 18446744073709551615 0 0) = true /\ options_ok (o 18446744073709551616 1 1) = false)%N.
 Proof. repeat split; vm_compute; reflexivity. Qed.
